@@ -59,7 +59,7 @@ seeded += ("\n\n**Round 3** (a third change per property; the agents were told w
             "One sub-agent also reported a defect of the unchanged tree that only exists in release builds (see 9.5, `e6b7ee607`); since then C01, C05, C06, C08 and C09 also run `-O2 -DNDEBUG` builds of their harnesses.\n") % (s3[0], s3[0] + s3[1], s3[1]))
 seeded += ("\n\n**Round 4** (a fourth change per property; the agents were told what the first three had touched, pointed at build configurations and secondary classes, and asked to report defects they noticed in the unchanged code).\n\n" + t4 +
            ("\n\nRound 4: %d of %d reported as the checks stood after round 3, %d missed and fixed as noted.\n") % (s4[0], s4[0] + s4[1], s4[1]))
-seeded += ("\n\n**Round 5** (started three hours before the end of the round and cut short: the machine was saturated by twenty concurrent builds, eleven agents were stopped before delivering, and the nine deliveries below were tried with the time that was left; one of the two misses (C18) was closed in the last half hour, the other (C10) is left open and says so).\n\n" + t5 +
+seeded += ("\n\n**Round 5** (started three hours before the end of the round and cut short: the machine was saturated by twenty concurrent builds, eleven agents were stopped before delivering, and the nine deliveries below were tried with the time that was left; one of the two misses (C18) was closed in the last half hour, the other (C10) at the start of the following session with the `xfer` operation).\n\n" + t5 +
            ("\n\nRound 5: %d of %d deliveries reported by the checks as they stood, %d not reported at first (see the notes).\n") % (s5[0], s5[0] + s5[1], s5[1]))
 body = body.replace('FIXED_ROWS', '\n'.join(fixed_rows)).replace('KNOWN_ROWS', '\n'.join(known_rows)).replace('SEEDED_TABLE', seeded)
 d = open(os.path.join(V, 'DESIGN.md')).read()
